@@ -112,7 +112,7 @@ LLVMFuzzerTestOneInput(const uint8_t *data, size_t size)
   while (f.remaining_bytes() >= 2 && total < 36) {
     const int t = f.ConsumeIntegralInRange<int>(0, nthr - 1);
     Op op;
-    op.code = static_cast<uint8_t>(f.ConsumeIntegralInRange<int>(0, kNumOps - 2));
+    op.code = static_cast<uint8_t>(f.ConsumeIntegralInRange<int>(0, kNumOps - 1));
     const uint8_t b = f.ConsumeIntegral<uint8_t>();
     op.a = static_cast<uint8_t>(b & 7U);
     op.b = static_cast<uint8_t>((b >> 3U) & 3U);
@@ -125,6 +125,7 @@ LLVMFuzzerTestOneInput(const uint8_t *data, size_t size)
         op.arg = (b & 0x80U) != 0 ? vals[(b >> 3U) & 7U] : 2000U + 7U * static_cast<uint32_t>(total);
         break;
       }
+      case HOLD: op.arg = static_cast<uint32_t>(b); break;
       default: break;
     }
     if (c.threads[t].ops.size() < 12) c.threads[t].ops.push_back(op);
